@@ -54,14 +54,24 @@ func (fc *fnCtx) specEnv(st *State, extra map[string]Val) *SpecEnv {
 	t := fc.top
 	env := &SpecEnv{fc: fc, st: st, old: t.entry, vars: map[string]Val{}, oldVars: t.params, bound: map[string]Val{}, pkg: fc.fn.Package()}
 	// locals (cells) by source name; later declarations shadow earlier ones only if live
-	for a, v := range st.cells {
+	cellSet := map[*ssa.Alloc]bool{}
+	for a := range st.cells {
+		cellSet[a] = true
+	}
+	for _, a := range sortedAllocs(cellSet) {
+		v := st.cells[a]
 		if a.Comment == "" || a.Parent() != fc.fn {
 			continue
 		}
 		et := a.Type().(*types.Pointer).Elem()
 		if prev, ok := env.vars[a.Comment]; ok && prev.T != "" {
-			// ambiguous: prefer the one declared first in source? keep parameter / earliest position
-			if a.Pos() > fc.cellPos[a.Comment] {
+			// ambiguous name: prefer the cell written in the loop being specified, else the earliest declaration
+			curIn := t.curLoop != nil && cellStoredIn(a, t.curLoop)
+			prevIn := t.curLoop != nil && fc.cellAlloc[a.Comment] != nil && cellStoredIn(fc.cellAlloc[a.Comment], t.curLoop)
+			if prevIn && !curIn {
+				continue
+			}
+			if curIn == prevIn && a.Pos() > fc.cellPos[a.Comment] {
 				continue
 			}
 		}
@@ -70,9 +80,13 @@ func (fc *fnCtx) specEnv(st *State, extra map[string]Val) *SpecEnv {
 			fc.cellPos = map[string]token.Pos{}
 		}
 		fc.cellPos[a.Comment] = a.Pos()
+		if fc.cellAlloc == nil {
+			fc.cellAlloc = map[string]*ssa.Alloc{}
+		}
+		fc.cellAlloc[a.Comment] = a
 	}
 	// escaping locals live in the heap
-	for a := range fc.escaping {
+	for _, a := range sortedAllocs(fc.escaping) {
 		if a.Comment == "" {
 			continue
 		}
@@ -87,6 +101,19 @@ func (fc *fnCtx) specEnv(st *State, extra map[string]Val) *SpecEnv {
 		env.vars[k] = v
 	}
 	return env
+}
+
+func cellStoredIn(a *ssa.Alloc, li *loopInfo) bool {
+	refs := a.Referrers()
+	if refs == nil {
+		return false
+	}
+	for _, r := range *refs {
+		if s, ok := r.(*ssa.Store); ok && s.Addr == a && li.blocks[s.Block()] {
+			return true
+		}
+	}
+	return false
 }
 
 func (e *SpecEnv) with(st *State) *SpecEnv {
@@ -686,6 +713,9 @@ func (e *SpecEnv) evalCall(n *ast.CallExpr) (Val, error) {
 				return Val{T: and(rng, body), Ty: boolT}, nil
 			}
 			if id.Name == "forall" {
+				if pats := quantPatterns(body, bn); pats != "" {
+					return Val{T: fmt.Sprintf("(forall ((%s Int)) (! (=> %s %s) %s))", bn, rng, body, pats), Ty: boolT}, nil
+				}
 				return Val{T: fmt.Sprintf("(forall ((%s Int)) (=> %s %s))", bn, rng, body), Ty: boolT}, nil
 			}
 			return Val{T: fmt.Sprintf("(exists ((%s Int)) (and %s %s))", bn, rng, body), Ty: boolT}, nil
@@ -828,6 +858,21 @@ func (e *SpecEnv) evalCall(n *ast.CallExpr) (Val, error) {
 				return Val{T: "(to_real " + v.T + ")", Ty: types.Typ[types.Float64]}, nil
 			}
 			return v, nil
+		case "fresh":
+			// fresh(x): the object x points to (or x's backing array) was allocated by this
+			// function invocation (or x is nil): it cannot alias anything the caller can see
+			v, err := e.eval(n.Args[0])
+			if err != nil {
+				return Val{}, err
+			}
+			a0 := e.fc.top.entry.alloc
+			switch v.Ty.Underlying().(type) {
+			case *types.Slice:
+				b := e.fc.slBase(v.T)
+				return Val{T: fmt.Sprintf("(or (= %s 0) (>= %s %s))", b, b, a0), Ty: boolT}, nil
+			default:
+				return Val{T: fmt.Sprintf("(or (= %s 0) (>= %s %s))", v.T, v.T, a0), Ty: boolT}, nil
+			}
 		case "alloc":
 			// allocated(p): p was allocated in the current state
 			v, err := e.eval(n.Args[0])
@@ -1020,4 +1065,73 @@ func lookupMethodAnyPkg(t types.Type, name string) *types.Func {
 		}
 	}
 	return nil
+}
+
+
+// quantPatterns picks E-matching patterns for a quantifier over bound variable bn:
+// every application (sl.ix S bn), (s.ix S bn) or (select A bn) occurring in body
+// whose other argument does not mention a bound variable. Each is an alternative.
+func quantPatterns(body, bn string) string {
+	seen := map[string]bool{}
+	var pats []string
+	for _, head := range []string{"(sl.ix ", "(s.ix ", "(select "} {
+		from := 0
+		for {
+			i := strings.Index(body[from:], head)
+			if i < 0 {
+				break
+			}
+			start := from + i
+			from = start + len(head)
+			// parse first argument
+			j := start + len(head)
+			arg1End := skipSexp(body, j)
+			if arg1End < 0 || arg1End >= len(body) || body[arg1End] != ' ' {
+				continue
+			}
+			rest := body[arg1End+1:]
+			if !strings.HasPrefix(rest, bn+")") {
+				continue
+			}
+			arg1 := body[j:arg1End]
+			if strings.Contains(arg1, "q.") { // mentions (possibly another) bound variable
+				continue
+			}
+			term := body[start : arg1End+1+len(bn)+1]
+			if !seen[term] {
+				seen[term] = true
+				pats = append(pats, ":pattern ("+term+")")
+			}
+		}
+	}
+	if len(pats) > 4 {
+		pats = pats[:4]
+	}
+	return strings.Join(pats, " ")
+}
+
+// skipSexp returns the index just after the s-expression starting at i.
+func skipSexp(s string, i int) int {
+	if i >= len(s) {
+		return -1
+	}
+	if s[i] != '(' {
+		for i < len(s) && s[i] != ' ' && s[i] != ')' {
+			i++
+		}
+		return i
+	}
+	depth := 0
+	for ; i < len(s); i++ {
+		switch s[i] {
+		case '(':
+			depth++
+		case ')':
+			depth--
+			if depth == 0 {
+				return i + 1
+			}
+		}
+	}
+	return -1
 }
